@@ -1591,6 +1591,26 @@ def step (w : World) (line : String) : World × String :=
       | none => (w, "no-store")
     | _, _, _ => (w, "bad-op")
   -- the specification of heads: greatest timestamp per author among the entries held
+  -- the specification of head keys: the key recorded with a head is the key of an entry of that author
+  -- with that timestamp held in the document (which one, among several, is not prescribed)
+  | ["sheadkeys", sid, ns, heads] =>
+    match parseNat? sid, Bytes.ofHex ns with
+    | some sid, some ns =>
+      match w.getT sid with
+      | some t =>
+        let items := if heads = "-" then [] else heads.splitOn ";"
+        let bad := items.filter (fun it =>
+          match it.splitOn ":" with
+          | [a, ts, k] =>
+            match Bytes.ofHex a, parseNat? ts, Bytes.ofHex k with
+            | some a, some ts, some k => !(t.records.any (fun e => e.ns == ns && e.author == a && e.ts == ts && e.key == k))
+            | _, _, _ => true
+          | _ => true)
+        (w, match bad with
+          | [] => "head-keys-name-held-entries"
+          | b :: _ => "head-names-no-entry:" ++ b)
+      | none => (w, "no-store")
+    | _, _ => (w, "bad-op")
   | ["sheads", sid, ns] =>
     match parseNat? sid, Bytes.ofHex ns with
     | some sid, some ns =>
@@ -1683,6 +1703,8 @@ partial def loop (hin hout : IO.FS.Stream) (w : World) : IO Unit := do
   -- `actdrop …`: a request whose caller stopped waiting; it is applied like `act …`, its reply is lost
   let (w', out) :=
     if line.startsWith "actdrop " then ((step w ("act " ++ (line.drop 8).toString)).1, "abandoned")
+    -- `abandoned <any request>`: the same for every other kind of request
+    else if line.startsWith "abandoned " then ((step w (line.drop 10).toString).1, "abandoned")
     else step w line
   hout.putStrLn out
   loop hin hout w'
